@@ -232,7 +232,7 @@ def _jobs(tier):
         jobs.append(Job('misc_reals_d%d' % d, h_misc_reals, {'decimals': d}))
     jobs.append(Job('max_timeframe', h_max_timeframe, {}))
     for j in jobs:
-        j.opts.update({'nlsat_fallback': True, 'prove_timeout_ms': 60000})
+        j.opts.update({'nlsat_fallback': True, 'prove_timeout_ms': 60000, 'max_path_seconds': 250})
     return jobs
 
 
@@ -272,7 +272,7 @@ def setup(tier, seed):
     jobs = _jobs(tier)
     return {
         'jobs': jobs,
-        'budget_s': 900 if tier == 'quick' else 3000,
+        'budget_s': 780 if tier == 'quick' else 3000,
         'explanation': 'the real utils.size_to_qty / risk_to_qty / risk_to_size / limit_stop_loss / sum_floats / subtract_floats and helpers.'
                        'floor_with_precision / round_decimals_down / round_qty_for_live_mode / max_timeframe are executed on proxies: (1) exact reals '
                        'for the algebraic clauses, incl. acceptance of the order by a fresh FuturesExchange/SpotExchange; (2) a sound relaxation of '
